@@ -88,7 +88,7 @@ def pa_access(n):
 
 
 def confine(rep, c, sfx):
-    r = rep.rule("C15.CONFINE" + sfx, 12,
+    r = rep.rule("C15.CONFINE" + sfx, 6,
                  "all writes to ParserState.parse_attempts are under `parse_attempts.enabled`; guarded regions "
                  "write nothing else, cannot exit the combinator, and call only confined functions")
     r2 = rep.rule("C15.NOFLOW" + sfx, 3,
@@ -203,6 +203,35 @@ def region_tag(ctx, n):
     return "top"
 
 
+def benign_closure_param(c, fn, lid):
+    """lid is a closure-typed parameter of the crate-private function fn, and at every call site of fn the argument is a
+    closure literal that only builds a value: it mentions no parser state, calls no closure and no ParserState method."""
+    if fn.get("exported"):
+        return False
+    idx = [i for i, p in enumerate(fn["params"]) if p.get("k") == "PBind" and p["id"] == lid]
+    if not idx:
+        return False
+    cg = hirq.CallGraph([c])
+    sites = cg.callers_of(fn["path"])
+    if not sites:
+        return False
+    for (p, n) in sites:
+        args = hirq.call_args(n)
+        if idx[0] >= len(args):
+            return False
+        a = peel(args[idx[0]])
+        if kind(a) != "Closure" or a.get("params"):
+            return False
+        for y in walk(a["body"]):
+            if kind(y) in ("Path", "Field") and "ParserState" in str(y.get("ty", "")) + str(y.get("bty", "")):
+                return False
+            if kind(y) in ("Call", "MethodCall"):
+                cy = callee(y)
+                if isinstance(cy, tuple) or (isinstance(cy, str) and cy.startswith("pest::parser_state::ParserState::")):
+                    return False
+    return True
+
+
 def check_region(r, key, region, fn, pa_methods, confined, closure_ids, c, helper=False):
     for x in hirq.walk_no_closures(region):
         k = kind(x)
@@ -226,7 +255,7 @@ def check_region(r, key, region, fn, pa_methods, confined, closure_ids, c, helpe
         elif k in ("Call", "MethodCall"):
             cal = callee(x)
             if isinstance(cal, tuple):
-                if cal[1] not in closure_ids:
+                if cal[1] not in closure_ids and not benign_closure_param(c, fn, cal[1]):
                     r.violation(key + ":call-param", where(x), "the error-detail region calls a user closure")
                 continue
             if not isinstance(cal, str):
